@@ -5,7 +5,9 @@
  R2 get_estimates binds a freshly constructed model and results handler on every path before any use;
  R3 no order-sensitive consumption of an unordered set (hash-seed dependence) in reachable code;
  R4 caller-owned arguments of the entry points are not mutated in place (a second run with the same objects would
-    otherwise see different arguments).
+    otherwise see different arguments);
+ R5 nothing written during a run outlives the client: no function fills a class-level or module-level container, no memoising
+    decorator on reachable code.
 """
 from __future__ import annotations
 
@@ -458,6 +460,77 @@ def check(ctx):
         if _is_set_expr(n):
             _order_uses(pf, n, pu)
     ctx.selftest("C12.R3.set-order", bool(pu), "list(set(a)) returned must be flagged")
+
+    # ---- R5 process-wide state ---------------------------------------------------------------
+    # "in the same process, on a fresh client, before or after other runs": nothing a run writes may outlive the client. Class-level
+    # or module-level containers that a method / function fills (caches, registries) and memoising decorators survive the run.
+    MUTATORS = {"append", "extend", "add", "update", "setdefault", "pop", "popitem", "clear", "insert", "remove", "discard", "appendleft"}
+
+    def _mutable_literal(v):
+        if isinstance(v, (ast.Dict, ast.List, ast.Set, ast.ListComp, ast.DictComp, ast.SetComp)):
+            return True
+        if isinstance(v, ast.Call):
+            nm = v.func.id if isinstance(v.func, ast.Name) else (v.func.attr if isinstance(v.func, ast.Attribute) else None)
+            return nm in ("dict", "list", "set", "defaultdict", "OrderedDict", "deque", "Counter")
+        return False
+
+    shared = []  # (kind, owner name, attr / global name, module)
+    for m in repo.modules.values():
+        for st in m.tree.body:
+            if isinstance(st, ast.Assign) and _mutable_literal(st.value):
+                for t in st.targets:
+                    if isinstance(t, ast.Name):
+                        shared.append(("module", m.name, t.id, m))
+            if isinstance(st, ast.ClassDef):
+                for cst in st.body:
+                    if isinstance(cst, ast.Assign) and _mutable_literal(cst.value):
+                        for t in cst.targets:
+                            if isinstance(t, ast.Name):
+                                shared.append(("class", st.name, t.id, m))
+    ctx.count("C12.R5.containers_at_module_or_class_level", len(shared))
+    nbad = 0
+    for f in repo.all_functions():
+        for n in util.own_nodes(f):
+            tgt = None
+            if isinstance(n, ast.Subscript) and isinstance(n.ctx, (ast.Store, ast.Del)):
+                tgt = n.value
+            elif isinstance(n, ast.Call) and isinstance(n.func, ast.Attribute) and n.func.attr in MUTATORS:
+                tgt = n.func.value
+            elif isinstance(n, ast.AugAssign):
+                tgt = n.target
+            if tgt is None:
+                continue
+            hit = None
+            for kind, owner, name, m in shared:
+                if kind == "module" and isinstance(tgt, ast.Name) and tgt.id == name and name not in f.params \
+                        and not any(isinstance(a, ast.Name) and isinstance(a.ctx, ast.Store) and a.id == name for a in util.own_nodes(f, ast.Name)):
+                    # the module's own container, or the same object imported by name into another module
+                    r_ = repo.resolve_name(f.module, name) if m is not f.module else None
+                    if m is f.module or (r_ and r_[0] == "const" and r_[1] is m and r_[2] == name):
+                        hit = f"module-level container {owner}.{name}"
+                if kind == "class" and isinstance(tgt, ast.Attribute) and tgt.attr == name and isinstance(tgt.value, ast.Name) \
+                        and tgt.value.id in ("self", "cls", owner):
+                    rebound = [1 for wf, recv, val, st_ in util.attr_writes(repo, name) if isinstance(recv, ast.Name) and recv.id == "self"]
+                    if not rebound:  # `self.x = ..` somewhere would give every instance its own object
+                        hit = f"class-level container {owner}.{name}"
+            if hit:
+                nbad += 1
+                ctx.ob("C12.R5.process-state", util.key(f, n), False, f.where(n),
+                       f"{hit} is filled at run time: what one run stores is seen by every later run in the process, on any client "
+                       f"(a cache whose key misses one parameter returns another request's value)")
+        for dec in getattr(f.node, "decorator_list", []):
+            dn = (attr_chain(dec.func if isinstance(dec, ast.Call) else dec) or [""])[-1]
+            if dn in ("lru_cache", "cache", "cached_property", "memoize") and f in reach:
+                nbad += 1
+                ctx.ob("C12.R5.process-state", f"{f.qualname}|@{dn}", False, f.where(),
+                       f"@{dn} keeps results across runs in the process; a seeded or configuration-dependent computation must not be memoised")
+    if nbad == 0:
+        ctx.ob("C12.R5.process-state", "package|no run-time writes to class / module level containers", True, "src/elexmodel",
+               f"{len(shared)} containers exist at module / class level (constants); no function writes into any of them, no memoising decorator")
+    # built-in positive example
+    probe5 = ast.parse("class K:\n    _c = {}\n    def f(self, k):\n        self._c[k] = 1\n")
+    okp5 = any(isinstance(x, ast.Subscript) and isinstance(x.ctx, ast.Store) and isinstance(x.value, ast.Attribute) and x.value.attr == "_c" for x in ast.walk(probe5))
+    ctx.selftest("C12.R5.process-state", okp5, "class-level cache written through self")
 
     # ---- R4 ------------------------------------------------------------------------------
     mu = Mutation(ctx)
